@@ -61,6 +61,7 @@ type World struct {
 	Node  Variant
 	MaxTx int
 	Cont  int // how many further blocks a recovered node is fed (0 = all)
+	Quiet [2]uint32 // blocks with heights in [Quiet[0], Quiet[1]] are generated empty (long chains)
 	P2P   bool // P2PStateExchangeExtensions (state-sync worlds)
 	SSI   int  // StateSyncInterval
 	jump  *jumpInfo
@@ -137,7 +138,11 @@ func (w *World) Close() { w.ref.Close() }
 // ensure makes the canonical chain at least h blocks long.
 func (w *World) ensure(h uint32) error {
 	for uint32(len(w.blocks)) < h {
-		b, err := w.gen.NextBlock(w.MaxTx)
+		mt := w.MaxTx
+		if nh := uint32(len(w.blocks)) + 1; nh >= w.Quiet[0] && nh <= w.Quiet[1] {
+			mt = 0
+		}
+		b, err := w.gen.NextBlock(mt)
 		if err != nil {
 			return err
 		}
